@@ -380,3 +380,70 @@ Example c13_held_load_example :
     = [HeldLoad.mkRep 1 500 [115;49]; HeldLoad.mkRep 2 503 [115;49]] /\
   HeldLoadProofs.lost_trigger HeldLoad.ti_p2p_topic [HeldLoad.w_del] HeldLoad.RelOk = true.
 Proof. vm_compute. repeat split. Qed.
+
+(* ================= the session store and the stop notice (coq/Sys/EvictStoreC13.v) ================= *)
+(* "never terminates the server process, and all other sessions keep being served ... every request is answered" for
+   the requests that terminate a user's sessions.  [EvictStoreC13.run keep ls (init_store us)]: any history [ls] of
+   NewSession (any transport, any set of stale long-polling sessions expiring), {login}, SessionStore.Get / Delete,
+   SessionStore.EvictUser, the write loop / a poll taking the stop notice, cleanUp, {acc user=U status=S} and
+   {del what=user [user=U]} requests of any session (root or not, any target, any store outcome), from a server with the
+   users table [us].  [Blocks BEvict sid] = SessionStore.EvictUser executes `s.stop <- data` on a full channel WHILE
+   HOLDING SessionStore.lock: the requester is never answered, and every Get / NewSession / Delete of every other
+   session hangs.  [keep = false] is the code as it is; [prompt_label] excludes exactly the requests whose handler puts
+   a notice on the REQUESTER's own, still cached, session (replyDelUser of the own account) while nobody reads that
+   session's stop channel (a long-polling session between polls, a stalled connection). *)
+Require Tinode.Sys.EvictStoreC13 Tinode.Sys.EvictStoreC13Proofs.
+
+Definition c13_evict_never_blocks_statement : Prop :=
+  forall us ls, EvictStoreC13.blocks_evict (EvictStoreC13.run false ls (EvictStoreC13.init_store us)) = false.
+
+(* REFUTED by the faithful model (and on the real server, findings/C13.md "EvictUser after a self-deletion through an
+   idle long-polling session"): user 7 deletes the own account through a long-polling session and does not poll again;
+   a root session deletes user 7: EvictUser finds the session still cached with its notice not taken *)
+Theorem c13_evict_never_blocks_refuted : ~ c13_evict_never_blocks_statement.
+Proof.
+  intros H. specialize (H EvictStoreC13Proofs.wit_users EvictStoreC13Proofs.wit_self).
+  rewrite EvictStoreC13Proofs.wit_self_blocks in H. discriminate H.
+Qed.
+Print Assumptions c13_evict_never_blocks_refuted.
+
+(* ... and that is the only way: on every other history - any number of evictions of the same user, with any number of
+   sessions of any transport whose stop channel nobody reads - EvictUser never waits *)
+Theorem c13_evict_never_blocks_partial :
+  forall us ls, forallb EvictStoreC13.prompt_label ls = true ->
+    EvictStoreC13.blocks_evict (EvictStoreC13.run false ls (EvictStoreC13.init_store us)) = false.
+Proof. exact EvictStoreC13Proofs.never_blocks_evict. Qed.
+Print Assumptions c13_evict_never_blocks_partial.
+
+(* ... because a session that is in sessCache has an empty stop channel (the notice and the removal from the cache
+   happen in the same critical section: a session gets at most one notice from EvictUser) *)
+Theorem c13_evict_cached_means_no_notice :
+  forall us ls st s, forallb EvictStoreC13.prompt_label ls = true ->
+    EvictStoreC13.run false ls (EvictStoreC13.init_store us) = EvictStoreC13.Ok st ->
+    In s (EvictStoreC13.sessions st) -> EvictStoreC13.s_cached s = true -> EvictStoreC13.s_stopfull s = false.
+Proof.
+  intros us ls st s P E. apply EvictStoreC13Proofs.store_inv_spec. exact (EvictStoreC13Proofs.reachable_inv us ls st P E).
+Qed.
+Print Assumptions c13_evict_cached_means_no_notice.
+
+(* the variant of EvictUser that leaves the evicted sessions in sessCache ("the session deletes itself when its write
+   loop takes the notice") *)
+Definition c13_evict_keep_cached_statement : Prop :=
+  forall us ls, forallb EvictStoreC13.prompt_label ls = true ->
+    EvictStoreC13.blocks_evict (EvictStoreC13.run true ls (EvictStoreC13.init_store us)) = false.
+
+(* refuted: a user with an idle long-polling session is suspended, un-suspended and suspended again by root *)
+Theorem c13_evict_keep_cached_refuted : ~ c13_evict_keep_cached_statement.
+Proof.
+  intros H. specialize (H EvictStoreC13Proofs.wit_users EvictStoreC13Proofs.wit_keep (proj1 EvictStoreC13Proofs.wit_keep_prompt)).
+  rewrite EvictStoreC13Proofs.wit_keep_blocks in H. discriminate H.
+Qed.
+Print Assumptions c13_evict_keep_cached_refuted.
+
+Example c13_evict_example :
+  EvictStoreC13.run true EvictStoreC13Proofs.wit_keep_del (EvictStoreC13.init_store EvictStoreC13Proofs.wit_users)
+    = EvictStoreC13.Blocks EvictStoreC13.BEvict 1 /\
+  EvictStoreC13.blocks_any (EvictStoreC13.run false EvictStoreC13Proofs.wit_keep (EvictStoreC13.init_store EvictStoreC13Proofs.wit_users)) = false /\
+  EvictStoreC13.blocks_any (EvictStoreC13.run false EvictStoreC13Proofs.wit_keep_del (EvictStoreC13.init_store EvictStoreC13Proofs.wit_users)) = false /\
+  forallb EvictStoreC13.prompt_label EvictStoreC13Proofs.wit_self = false.
+Proof. vm_compute. repeat split. Qed.
